@@ -45,6 +45,19 @@ def Codec.Correct (C : Codec) : Prop :=
 def Codec.Sound (C : Codec) (wc : WireCodec) (iss : Issued) : Prop :=
   ∀ r p, C.dec r = some p → ∃ c0, (c0, p) ∈ iss ∧ sameCipher wc r c0 = true
 
+/-- the same, only for the values a given request carries. This is the form the theorems use: it is
+    a statement about what the CLIENT managed to put into the request (unforgeability), so it is
+    compatible with `Codec.Correct` for one and the same AEAD. -/
+def Codec.SoundOn (C : Codec) (wc : WireCodec) (iss : Issued) (j : Jar) : Prop :=
+  ∀ k r p, (k, r) ∈ j → C.dec r = some p → ∃ c0, (c0, p) ∈ iss ∧ sameCipher wc r c0 = true
+
+theorem Codec.Sound.on {C : Codec} {wc : WireCodec} {iss : Issued} (h : C.Sound wc iss) (j : Jar) :
+    C.SoundOn wc iss j := fun _ r p _ hd => h r p hd
+
+/-- decrypting depends on a text only through the ciphertext it denotes -/
+def Codec.Respects (C : Codec) (wc : WireCodec) : Prop :=
+  ∀ r r', sameCipher wc r r' = true → C.dec r = C.dec r'
+
 /-- codec level: every text denoting an issued ciphertext decrypts to the issued plaintext -/
 def Codec.Complete (C : Codec) (wc : WireCodec) (iss : Issued) : Prop :=
   (∀ c0 p r, (c0, p) ∈ iss → sameCipher wc r c0 = true → C.dec r = some p) ∧
@@ -237,14 +250,6 @@ theorem mem_authPlain {wc : WireCodec} {iss : Issued} {r c0 p : Bytes} (hm : (c0
   simp [authPlain]
   exact ⟨c0, hm, hs⟩
 
-theorem valueOK_of_dec {C : Codec} {wc : WireCodec} {iss : Issued} (hS : C.Sound wc iss)
-    {j : Jar} {k r p : Bytes} (hr : (k, r) ∈ j) (hd : C.dec r = some p) : valueOK wc iss j k p = true := by
-  obtain ⟨c0, hm, hs⟩ := hS r p hd
-  simp only [valueOK, Bool.or_eq_true]
-  right
-  rw [List.any_eq_true]
-  exact ⟨r, mem_bindValues.mpr hr, by simpa using mem_authPlain hm hs⟩
-
 theorem valueOK_nil (wc : WireCodec) (iss : Issued) (j : Jar) (k : Bytes) : valueOK wc iss j k [] = true := by
   simp [valueOK]
 
@@ -261,8 +266,9 @@ theorem mem_of_issuedPlain {iss : Issued} {c p : Bytes} (h : issuedPlain iss c =
     simp at he h; subst he; subst h; exact hm
 
 /-- what the loop stores for a non-excepted cookie is what the oracle expects for it -/
-theorem expectOne_openValue {C : Codec} {wc : WireCodec} {iss : Issued} (hS : C.Sound wc iss)
-    (hC : C.Complete wc iss) (r : Bytes) : expectOne wc iss r ((C.dec r).getD []) = true := by
+theorem expectOne_openValue {C : Codec} {wc : WireCodec} {iss : Issued} (r : Bytes)
+    (hS : ∀ p, C.dec r = some p → ∃ c0, (c0, p) ∈ iss ∧ sameCipher wc r c0 = true)
+    (hC : C.Complete wc iss) : expectOne wc iss r ((C.dec r).getD []) = true := by
   unfold expectOne
   cases hi : issuedPlain iss r with
   | some p =>
@@ -272,7 +278,7 @@ theorem expectOne_openValue {C : Codec} {wc : WireCodec} {iss : Issued} (hS : C.
     cases hd : C.dec r with
     | none => simp
     | some p =>
-      obtain ⟨c0, hm, hs⟩ := hS r p hd
+      obtain ⟨c0, hm, hs⟩ := hS p hd
       simp only [Option.getD_some, Bool.or_eq_true]
       right
       simpa using mem_authPlain hm hs
@@ -545,12 +551,6 @@ theorem encryptJar_rel (C : Codec) (ex : List Bytes) (cs : List RCookie) :
               (ih ns' t (fun m hm => hns m (by simp [hm])) hr)
             rw [hd'] at hf; cases hf
 
-/-- the log of what a response issued: (wire text, plaintext) of every non-excepted cookie -/
-def issuedBy (ex : List Bytes) : List RCookie → List WCookie → Issued
-  | c :: cs, w :: ws =>
-    if isDisabled c.key ex then issuedBy ex cs ws else (w.value, c.pvalue) :: issuedBy ex cs ws
-  | _, _ => []
-
 theorem issuedPlain_of_functional {f : Bytes → Option Bytes} (iss : Issued)
     (hf : ∀ e ∈ iss, f e.1 = some e.2) {c p : Bytes} (hm : (c, p) ∈ iss) : issuedPlain iss c = some p := by
   unfold issuedPlain
@@ -682,5 +682,138 @@ theorem issued_nonces {A : Aead} {key : Bytes} (hG : A.GcmShape) (ex : List Byte
             rw [(take_drop_nonce (c := A.sealWith kd n c.pvalue) hn.1).1]
             simp only [encCount, List.filter_cons, hd, Bool.not_false, if_true, List.length_cons, List.take_succ_cons]
             congr 1
+
+/-! ## the request loop before the fix agrees with the current one when no name repeats -/
+
+theorem setArg_at (pre : Jar) (k v v' : Bytes) (post : Jar) (h : k ∉ pre.map (·.1)) :
+    setArg (pre ++ (k, v) :: post) k v' = pre ++ (k, v') :: post := by
+  induction pre with
+  | nil => simp [setArg]
+  | cons e r ih =>
+    obtain ⟨k', w⟩ := e
+    simp at h
+    have hne : ¬ k' = k := fun hk => h.1 hk.symm
+    simp [setArg, hne, ih (by simpa using h.2)]
+
+theorem oldLoop_prefix (C : Codec) (ex : List Bytes) (j : Jar) (hnd : (j.map (·.1)).Nodup) :
+    ∀ i, i ≤ j.length →
+      (List.range i).foldl (oldVisit C ex) j = (j.take i).map (tr C ex) ++ j.drop i := by
+  intro i
+  induction i with
+  | zero => intro _; simp
+  | succ i ih =>
+    intro hi
+    have hlt : i < j.length := by omega
+    rw [List.range_succ, List.foldl_append, ih (by omega)]
+    simp only [List.foldl_cons, List.foldl_nil]
+    have hdrop : j.drop i = j[i] :: j.drop (i + 1) := List.drop_eq_getElem_cons hlt
+    have htake : j.take (i + 1) = j.take i ++ [j[i]] := by
+      rw [List.take_add_one, List.getElem?_eq_getElem hlt]; rfl
+    have hlen : ((j.take i).map (tr C ex)).length = i := by simp; omega
+    have hget : ((j.take i).map (tr C ex) ++ j.drop i)[i]? = some j[i] := by
+      rw [List.getElem?_append_right (by omega), hlen, hdrop]; simp
+    rcases hji : j[i] with ⟨k, v⟩
+    unfold oldVisit
+    rw [hget, hji]
+    simp only
+    rw [htake, hji, List.map_append, List.map_cons, List.map_nil, List.append_assoc]
+    cases hd : isDisabled k ex with
+    | true => simp [tr, openValue, hd, hdrop, hji]
+    | false =>
+      simp only [Bool.false_eq_true, if_false]
+      rw [hdrop, hji]
+      have hk : k ∉ ((j.take i).map (tr C ex)).map (·.1) := by
+        have hsplit : j = j.take i ++ (k, v) :: j.drop (i + 1) := by
+          conv => lhs; rw [← List.take_append_drop i j, hdrop, hji]
+        rw [hsplit, List.map_append, List.map_cons] at hnd
+        have := (List.nodup_append.mp hnd).2.2
+        intro hm
+        have hkeys : ((j.take i).map (tr C ex)).map (·.1) = (j.take i).map (·.1) := by
+          simp [tr, Function.comp_def]
+        rw [hkeys] at hm
+        exact this k hm k (List.mem_cons_self) rfl
+      rw [setArg_at _ k v _ _ hk]
+      simp [tr, openValue, hd]
+
+/-- with pairwise distinct names the old in-place loop and the current rebuild give the same request -/
+theorem decryptJarOld_eq_of_nodup (C : Codec) (ex : List Bytes) (j : Jar) (hnd : (j.map (·.1)).Nodup) :
+    decryptJarOld C ex j = decryptJar C ex j := by
+  unfold decryptJarOld
+  rw [oldLoop_prefix C ex j hnd j.length (Nat.le_refl _), decryptJar_eq,
+    firsts_of_nodup j [] (by simp) hnd]
+  simp
+
+/-! ## more codec facts: `Respects`, and completeness of a log the server produced itself -/
+
+theorem std_respects (A : Aead) (key : Bytes) : (stdCodec A key).Respects stdWire := by
+  intro r r' hs
+  obtain ⟨x, h1, h2⟩ := sameCipher_std.mp hs
+  show decryptCookie A r key = decryptCookie A r' key
+  unfold decryptCookie
+  rw [h1, h2]
+
+theorem sameCipher_iff {wc : WireCodec} {r c : Bytes} :
+    sameCipher wc r c = true ↔ ∃ x, wc.canon r = some x ∧ wc.canon c = some x := by
+  unfold sameCipher
+  cases h : wc.canon r <;> simp
+
+theorem wrap_canon_some {s x : Bytes} (h : wrapWire.canon s = some x) :
+    ∃ t, s = 88 :: t ∧ decode t.reverse = some x := by
+  match s, h with
+  | [], h => simp [wrapWire] at h
+  | y :: t, h =>
+    by_cases hy : y = 88
+    · subst hy; exact ⟨t, rfl, by simpa [wrapWire] using h⟩
+    · simp only [wrapWire] at h
+      split at h
+      · rename_i heq; simp at heq; exact absurd heq.1 hy
+      · cases h
+
+theorem wrap_respects {C : Codec} (h : C.Respects stdWire) : (wrapCodec C).Respects wrapWire := by
+  intro r r' hs
+  obtain ⟨x, h1, h2⟩ := sameCipher_iff.mp hs
+  obtain ⟨t, rfl, ht⟩ := wrap_canon_some h1
+  obtain ⟨t', rfl, ht'⟩ := wrap_canon_some h2
+  have : sameCipher stdWire t.reverse t'.reverse = true := sameCipher_std.mpr ⟨x, ht, ht'⟩
+  simpa [wrapCodec] using h _ _ this
+
+/-- a log whose every entry the codec itself wrote (with a good nonce, for a byte value) -/
+def Codec.Wrote (C : Codec) (iss : Issued) : Prop :=
+  ∀ e ∈ iss, ∃ n, goodNonce n ∧ IsBytes e.2 ∧ C.enc n e.2 = some e.1
+
+theorem complete_of_wrote {C : Codec} {wc : WireCodec} (hCor : C.Correct) (hF : C.Format wc)
+    (hR : C.Respects wc) {iss : Issued} (hW : C.Wrote iss) : C.Complete wc iss := by
+  constructor
+  · intro c0 p r hm hs
+    obtain ⟨n, hn, hb, he⟩ := hW (c0, p) hm
+    rw [hR r c0 hs]
+    exact hCor n p c0 hn hb he
+  · intro c0 p hm
+    obtain ⟨n, hn, _, he⟩ := hW (c0, p) hm
+    have := hF n p c0 hn he
+    unfold wireFormatOK at this
+    unfold sameCipher
+    cases hc : wc.canon c0 with
+    | none => simp [hc] at this
+    | some bs => simp
+
+theorem wrote_functional {C : Codec} (hCor : C.Correct) {iss : Issued} (hW : C.Wrote iss) :
+    ∀ e ∈ iss, C.dec e.1 = some e.2 := by
+  intro e he
+  obtain ⟨n, hn, hb, hen⟩ := hW e he
+  exact hCor n e.2 e.1 hn hb hen
+
+theorem wrote_append {C : Codec} {a b : Issued} (ha : C.Wrote a) (hb : C.Wrote b) : C.Wrote (a ++ b) := by
+  intro e he
+  rcases List.mem_append.mp he with h | h
+  · exact ha e h
+  · exact hb e h
+
+theorem wrote_issuedBy {C : Codec} {ex : List Bytes} {cs : List RCookie} {ws : List WCookie}
+    (hp : Paired (WRel C ex) cs ws) (hb : ∀ c ∈ cs, IsBytes c.pvalue) : C.Wrote (issuedBy ex cs ws) := by
+  intro e he
+  obtain ⟨n, hn, hen⟩ := issuedBy_enc hp e he
+  obtain ⟨c, hc, hpv⟩ := issuedBy_plain hp e he
+  exact ⟨n, hn, by rw [hpv]; exact hb c hc, hen⟩
 
 end C20
